@@ -23,7 +23,7 @@ func init() {
 				r := w.Do("POST", ccBase+"/chargingdata", body, nil)
 				log = append(log, fmt.Sprintf("create %+v", r))
 				vs.Quiesce()
-				ref := r.Location[len(r.Location)-len("imsi-208930000000001smf10"):]
+				ref := r.Location[len(r.Location)-len("imsi-208930000000001smf1-0"):]
 				body["multipleUnitUsage"] = []any{map[string]any{"ratingGroup": 1, "requestedUnit": map[string]any{"totalVolume": 100},
 					"usedUnitContainer": []any{map[string]any{"quotaManagementIndicator": "ONLINE_CHARGING", "localSequenceNumber": 1}}}}
 				r = w.Do("POST", ccBase+"/chargingdata/"+ref+"/update", body, nil)
